@@ -221,3 +221,116 @@ Print Assumptions C01_generated_forward_internal_is_model_per_unit_lr.
 Print Assumptions C01_generated_forward_external_is_model.
 Print Assumptions C01_generated_forward_external_is_model_per_unit_lr.
 Print Assumptions C01_generated_internal_law.
+
+(* ================================================================================================================
+   The R-vs-Q instance gap, closed by proof (base/NumHom.v, proofs/QR_bridge_C01.v).
+   The theorems above are about model/Reservoir.v at F := R; the correspondence run (run/RunC01.v, chk_res) evaluates the SAME
+   term at F := Q.  [Q2R] is a homomorphism of the [Num] class (division included: x/0 = 0 on both sides, Rinv_0), so every
+   function of the model commutes with the entry-wise embedding [qv2r := map Q2R], [qm2r := map (map Q2R)]:
+   running at Q and embedding = running at R on the embedded data.  Hence [chk_res ... = true] (exact activations) says that
+   the values of the R-MODEL OF THE THEOREMS on those rational parameters and inputs are within 1e-9 of what reservoirpy
+   returned -- no longer an informal reading of the Q run.
+   [cfg2r c fR gR]: every array/scalar of c embedded, activations replaced by fR / gR; [st2r], [in2r]: states and step inputs
+   embedded component-wise.  No shape hypothesis and no side condition. *)
+From RV Require Import base.GenPrelude base.NumHom proofs.QR_bridge_C01.
+
+Theorem C01_Q2R_is_a_Num_homomorphism :
+  Q2R n0 = n0 /\ Q2R n1 = n1 /\
+  (forall a b : Q, Q2R (nadd a b) = nadd (Q2R a) (Q2R b)) /\ (forall a b : Q, Q2R (nsub a b) = nsub (Q2R a) (Q2R b)) /\
+  (forall a b : Q, Q2R (nmul a b) = nmul (Q2R a) (Q2R b)) /\ (forall a b : Q, Q2R (ndiv a b) = ndiv (Q2R a) (Q2R b)) /\
+  (forall a : Q, Q2R (nopp a) = nopp (Q2R a)) /\ (forall z : Z, Q2R (nofZ z) = nofZ z) /\
+  (forall a : Q, Q2R (nabs a) = nabs (Q2R a)) /\
+  (forall a b : Q, nltb a b = nltb (Q2R a) (Q2R b)) /\ (forall a b : Q, nleb a b = nleb (Q2R a) (Q2R b)).
+Proof. exact Q2R_hom_spelled. Qed.
+
+(* one step of either equation (internal / external), scalar or per-unit leak, with or without feedback, any noise gains and
+   draws, any pair of related activations *)
+Theorem C01_Qstep_embeds_in_Rstep (e : equation) (c : rcfg Q) (fR gR : list R -> list R) (st : rstate Q) (x : rin Q) :
+  (forall v, qv2r (ract c v) = fR (qv2r v)) -> (forall v, qv2r (rfbact c v) = gR (qv2r v)) ->
+  st2r (step e c st x) = step e (cfg2r c fR gR) (st2r st) (in2r x).
+Proof. exact (Qstep_embeds_in_Rstep e c fR gR st x). Qed.
+
+(* a whole run over any input list: all intermediate (internal_state, state) pairs, all emitted rows, the final pair *)
+Theorem C01_Qrun_embeds_in_Rrun (e : equation) (c : rcfg Q) (fR gR : list R -> list R) (st : rstate Q) (xs : list (rin Q)) :
+  (forall v, qv2r (ract c v) = fR (qv2r v)) -> (forall v, qv2r (rfbact c v) = gR (qv2r v)) ->
+  map st2r (run_states e c st xs) = run_states e (cfg2r c fR gR) (st2r st) (map in2r xs) /\
+  qm2r (run_outputs e c st xs) = run_outputs e (cfg2r c fR gR) (st2r st) (map in2r xs) /\
+  st2r (run_final e c st xs) = run_final e (cfg2r c fR gR) (st2r st) (map in2r xs).
+Proof. exact (Qrun_embeds_in_Rrun e c fR gR st xs). Qed.
+
+(* the activation premise holds for the four exactly computable activations the harness passes to reservoirpy *)
+Theorem C01_exact_activations_embed :
+  (forall v, qv2r (map a_id v) = map a_id (qv2r v)) /\ (forall v, qv2r (map a_relu v) = map a_relu (qv2r v)) /\
+  (forall v, qv2r (map a_hardtanh v) = map a_hardtanh (qv2r v)) /\ (forall v, qv2r (map a_half v) = map a_half (qv2r v)).
+Proof. exact Qexact_activations_embed. Qed.
+
+(* ... which at R are max(x,0), clip(x,-1,1) and x/2 *)
+Theorem C01_exact_activations_at_R (x : R) :
+  a_relu x = Rmax x 0 /\ a_hardtanh x = Rmax (-1) (Rmin 1 x) /\ a_half x = x / 2.
+Proof. exact (conj (a_relu_R x) (conj (a_hardtanh_R x) (a_half_R x))). Qed.
+
+(* initialize(): the Win / bias split commutes with the embedding too (rejected shapes stay rejected) *)
+Theorem C01_Qinit_embeds (ib : bool) (Win : list (list Q)) (bias_arg : list Q) (in_dim : nat) :
+  option_map (fun p => (qm2r (fst p), qv2r (snd p))) (init_win_bias ib Win bias_arg in_dim)
+  = init_win_bias ib (qm2r Win) (qv2r bias_arg) in_dim.
+Proof. exact (Qinit_embeds ib Win bias_arg in_dim). Qed.
+
+(* non-vacuity: 2 units, feedback through relu, per-unit leak, hard-tanh, external equation, two steps -- the R-model on the
+   embedded data yields exactly the embedded numbers the Q run computes (vm_compute on the Q side only) *)
+Example C01_Qrun_embeds_example :
+  run_outputs External (cfg2r excfg (map a_hardtanh) (map a_relu)) (qv2r [0%Q; 0%Q], qv2r [(1#2)%Q; (-1#2)%Q])
+              [in2r (exin (1#4) (1#2)); in2r (exin (-1#2) (-1#1))]
+  = qm2r [[(5#8)%Q; (9#64)%Q]; [(7#512)%Q; (1011#2048)%Q]].
+Proof. exact Qrun_embeds_example. Qed.
+
+Print Assumptions C01_Q2R_is_a_Num_homomorphism.
+Print Assumptions C01_Qstep_embeds_in_Rstep.
+Print Assumptions C01_Qrun_embeds_in_Rrun.
+Print Assumptions C01_exact_activations_embed.
+Print Assumptions C01_exact_activations_at_R.
+Print Assumptions C01_Qinit_embeds.
+
+(* ---- the verdict of the correspondence runner, read at R ----
+   [chk_res] (run/RunC01.v) is the boolean evaluated at Q by vm_compute for every C01 / C15 scenario; [rclose m o] is
+   |m - o| <= 1e-9 * max(1,|m|) on reals ([vrclose], [mrclose]: entry-wise, same shape).  With exactly computable activations
+   ([exact_act]: not a recorded table), a verdict [true] IS a statement about the R-instance of the model, the object of the
+   theorems of this file: initialised (Win / bias split) and run on the embedded parameters and inputs, it yields rows, a final
+   state and a final internal state within tolerance of the embedded observations of reservoirpy's node. *)
+From RV Require Import run.RunC01.
+
+Theorem C01_tolerance_test_at_R (m o : Q) :
+  (qclose m o = true <-> rclose (Q2R m) (Q2R o)) /\
+  (rclose (Q2R m) (Q2R o) -> Rabs (Q2R m - Q2R o) <= 1 / 1000000000 * Rmax 1 (Rabs (Q2R m))).
+Proof. exact (conj (qclose_rclose m o) (rclose_abs (Q2R m) (Q2R o))). Qed.
+
+Theorem C01_chk_res_is_about_R_model (e : equation) (W : list (list Q)) (ib : bool) (Win_arg : list (list Q)) (bias_arg : list Q)
+    (in_dim : nat) (Wfb : option (list (list Q))) (lr : leak Q) (act fbact : actc) (s0 r0 : list Q) (us fbs : list (list Q))
+    (outs : list (list Q)) (sfin rfin : list Q) (obsWin : list (list Q)) (obsbias : list Q) :
+  exact_act act = true -> exact_act fbact = true ->
+  chk_res e W ib Win_arg bias_arg in_dim Wfb lr act fbact s0 r0 us fbs outs sfin rfin obsWin obsbias = true ->
+  exists (Win : list (list Q)) (bias : list Q),
+    init_win_bias ib (qm2r Win_arg) (qv2r bias_arg) in_dim = Some (qm2r Win, qv2r bias) /\
+    let cR := cfg2r (mkcfg W Win bias Wfb lr act fbact) (act_funR act) (act_funR fbact) in
+    let xs := map in2r (map mkin (combine us fbs)) in
+    let st0 := (qv2r s0, qv2r r0) in
+    mrclose (qm2r Win) (qm2r obsWin) /\ vrclose (qv2r bias) (qv2r obsbias) /\
+    mrclose (run_outputs e cR st0 xs) (qm2r outs) /\
+    vrclose (fst (run_final e cR st0 xs)) (qv2r sfin) /\ vrclose (snd (run_final e cR st0 xs)) (qv2r rfin).
+Proof. exact (chk_res_is_about_R_model e W ib Win_arg bias_arg in_dim Wfb lr act fbact s0 r0 us fbs outs sfin rfin obsWin obsbias). Qed.
+
+(* the R configuration of that statement, spelled out: embedded arrays, the real activation functions, noise gains 0 *)
+Theorem C01_chk_res_R_config W Win bias Wfb lr act fbact :
+  cfg2r (mkcfg W Win bias Wfb lr act fbact) (act_funR act) (act_funR fbact)
+  = {| rW := qm2r W; rWin := qm2r Win; rbias := qv2r bias; rWfb := option_map qm2r Wfb; rlr := leak2r lr;
+       ract := act_funR act; rfbact := act_funR fbact; g_in := 0; g_fb := 0; g_rc := 0 |}.
+Proof. exact (cfg2r_mkcfg W Win bias Wfb lr act fbact). Qed.
+
+(* non-vacuity: a scenario on which the runner answers true *)
+Example C01_chk_res_example :
+  chk_res Internal exW false exWin [] 1 None (LrS (1#2)%Q) AHard AId [0%Q; 0%Q] [(1#2)%Q; (-1#2)%Q] [[(1#4)%Q]] [[]]
+          [[(11#16)%Q; (-5#32)%Q]] [0%Q; 0%Q] [(11#16)%Q; (-5#32)%Q] exWin [0%Q; 0%Q] = true.
+Proof. exact chk_res_example. Qed.
+
+Print Assumptions C01_tolerance_test_at_R.
+Print Assumptions C01_chk_res_is_about_R_model.
+Print Assumptions C01_chk_res_R_config.
